@@ -408,6 +408,19 @@ func (e *Exec) intBinop(st *State, ins ssa.Instruction, op token.Token, a, b *Te
 				return c.Mod(b, c.BigInt(pow2(k)))
 			}
 		}
+		if uns {
+			// a run of ones in bits l..h-1: x & mask = x mod 2^h - x mod 2^l
+			if v, ok := litInt(b); ok {
+				if l, h, ok := contiguousMask(v); ok {
+					return c.Sub(c.Mod(a, c.BigInt(pow2(h))), c.Mod(a, c.BigInt(pow2(l))))
+				}
+			}
+			if v, ok := litInt(a); ok {
+				if l, h, ok := contiguousMask(v); ok {
+					return c.Sub(c.Mod(b, c.BigInt(pow2(h))), c.Mod(b, c.BigInt(pow2(l))))
+				}
+			}
+		}
 		t := e.uf2("bv.and", a, b)
 		if !t.bound {
 			c.AddFact(t, c.Implies(c.And(c.Ge(a, c.Int(0)), c.Ge(b, c.Int(0))), c.And(c.Le(c.Int(0), t), c.Le(t, a), c.Le(t, b))))
@@ -690,4 +703,19 @@ func (e *Exec) constVal(x *ssa.Const) Val {
 	}
 	e.fail("constant of type %s", ty)
 	return Val{}
+}
+
+
+// contiguousMask: v = 2^h - 2^l with 0 < l < h <= 64 (a single run of one bits not starting at bit 0).
+func contiguousMask(v *big.Int) (l, h uint, ok bool) {
+	if v.Sign() <= 0 || v.BitLen() > 64 {
+		return 0, 0, false
+	}
+	l = v.TrailingZeroBits()
+	h = uint(v.BitLen())
+	if l == 0 {
+		return 0, 0, false
+	}
+	want := new(big.Int).Sub(pow2(h), pow2(l))
+	return l, h, want.Cmp(v) == 0
 }
